@@ -108,7 +108,7 @@ def run(rep, F, ctx):
         B = cg.body(fn)
         keys = [skey_call(B, t) for i, t in B.calls()]
         ins = [k for k in keys if k.startswith('insert(')]
-        ok_ins = ins == ['insert(sys_config_dirs() as Ok.0,0,config_dir() as Ok.0)']
+        ok_ins = ins == ['insert(sys_config_dirs()?,0,config_dir()?)']
         ex = [(i, t) for i, t in B.calls() if (callee_of(t) or '').split('::')[-1] == 'exists']
         ok_ex = len(ex) == 1 and 'mash(' in sdesc_operand(B, ex[0][1]['args'][-1])
         some = [(i, sdesc_operand(B, s['rv']['ops'][0])) for i, j, s in B.assigns() if s['place']['l'] == 0 and s['rv']['k'] == 'aggregate' and s['rv'].get('variant') == 'Some']
